@@ -210,7 +210,15 @@ def _lists(alphabet, maxlen, minlen=1):
             yield list(tup)
 
 
+# patterns whose meaning depends on their surroundings when patterns are not compiled one by one: numbered back
+# references, global inline flags, named groups -- "any positive matches, no negated matches" is per pattern
+CTX_PATS = [r'(a)\1', r'(b)\1', '(?i)a', 'B', '(?P<n>a)x', '(?P<n>b)y', r'!(a)\1', r'!(b)\1', '!(?i)b', '!(?P<n>a)x']
+CTX_NAMES = ['aa', 'bb', 'ab', 'B', 'b', 'ax', 'by', 'A', 'a', 'xx']
+
+
 def _gen_exhaustive():
+    for pats in _lists(CTX_PATS, 2, 2):
+        yield {'kind': 'direct', 'patterns': pats, 'names': CTX_NAMES}
     for pats in _lists(PATS, 3):
         yield {'kind': 'direct', 'patterns': pats, 'names': NAMES}
     for pats in _lists(PATS, 2):
